@@ -129,12 +129,15 @@ def build_harness(name, pkgs, test_pkg, harness_files, instrument=True, adds=Non
 # exploration
 
 def explore(binary, harness, bound, budget_s, nshards=None, cache=False, dev_bound=-1, cfg=None,
-            max_exec=0, race=False, test_run="TestVerif", env_extra=None):
+            max_exec=0, race=False, test_run="TestVerif", env_extra=None, por=False):
     """Run one exploration pass over nshards worker processes and merge the results."""
     nshards = nshards or NPROC
     work = os.path.dirname(binary)
     procs = []
     outs = []
+    claim = os.path.join(work, "claims-%s" % harness)
+    shutil.rmtree(claim, ignore_errors=True)
+    os.makedirs(claim)
     for s in range(nshards):
         out = os.path.join(work, "res-%s-%d.json" % (harness, s))
         if os.path.exists(out):
@@ -142,10 +145,10 @@ def explore(binary, harness, bound, budget_s, nshards=None, cache=False, dev_bou
         outs.append(out)
         args = {"harness": harness, "mode": "explore", "bound": bound, "dev_bound": dev_bound,
                 "cache": cache, "shard": s, "nshards": nshards, "budget_s": budget_s,
-                "max_exec": max_exec, "cfg": cfg or {}, "out": out, "race": race}
+                "max_exec": max_exec, "cfg": cfg or {}, "out": out, "race": race, "claim_dir": claim, "por": por}
         env = dict(GOENV)
         env["VERIF_ARGS"] = json.dumps(args)
-        env["GOMAXPROCS"] = "2"
+        env.setdefault("GOGC", "400")
         if race:
             env["GORACE"] = "halt_on_error=0 log_path=%s/race-%s-%d history_size=2" % (work, harness, s)
         if env_extra:
@@ -190,8 +193,11 @@ def merge(a, b):
         b = dict(b)
         b["shards"] = 1
         return b
-    for k in ("executions", "transitions", "states", "cache_hits", "race_errors", "step_limited"):
+    for k in ("executions", "transitions", "states", "cache_hits", "race_errors", "step_limited", "cut_early", "sleep_blocked"):
         a[k] = a.get(k, 0) + b.get(k, 0)
+    for k in ("shard_mode", "configs"):
+        if b.get(k):
+            a[k] = b[k]
     for k in ("max_depth", "max_threads", "wall_s"):
         a[k] = max(a.get(k, 0), b.get(k, 0))
     a["exhaustive"] = a["exhaustive"] and b["exhaustive"]
